@@ -32,10 +32,19 @@ class Module:
         self.ff = []
         self.initial = node.findall('initial')
         self.instances = {i.get('name'): i for i in node.findall('instance')}
-        for c in node.findall('contassign'):
+        self.cont_elem = {}
+        direct = set(id(c) for c in node.findall('contassign'))
+        for c in node.iter('contassign'):
             lhs = c[1]
-            if lhs.tag == 'varref':
+            if lhs.tag == 'varref' and id(c) in direct:
                 self.cont[lhs.get('name')] = c[0]
+            elif lhs.tag == 'varref':
+                # inside a generate block: same meaning as at module level
+                self.cont[lhs.get('name')] = c[0]
+            elif lhs.tag == 'arraysel' and lhs[0].tag == 'varref' and lhs[1].tag == 'const':
+                # element of a combinational (unpacked) array, e.g. from a generate loop:  assign bytes[i] = word[8*i +: 8]
+                k_ = parse_const(lhs[1].get('name'))[1]
+                self.cont_elem.setdefault(lhs[0].get('name'), {})[k_] = c[0]
             else:
                 raise AnalysisBroken('continuous assignment to a non-simple target in module %s (%s)' % (self.name, lhs.tag))
         for a in node.findall('always'):
@@ -372,6 +381,24 @@ class Eval:
             full = sc.path + '.' + arr.get('name')
             if full in self.ov and callable(self.ov[full]):
                 return self.ov[full](idx)
+            elems = sc.m.cont_elem.get(arr.get('name'))
+            if elems:
+                # a combinational array: the element the index selects
+                ks = sorted(elems)
+                vals = {k_: self.expr(elems[k_], sc, env) for k_ in ks}
+                if idx.isconst():
+                    if idx.c not in vals:
+                        raise AnalysisBroken('read of undriven element %d of %s' % (idx.c, full))
+                    return vals[idx.c]
+                res = vals[ks[-1]]
+                for k_ in reversed(ks[:-1]):
+                    res = ite(p_eq(idx, const(idx.w, k_)), vals[k_], res)
+                return res
+            if arr.get('name') not in sc.m.ffdrv and arr.get('name') not in getattr(sc.m, 'memories', ()) and not any(
+                    arr.get('name') == n_ for n_ in sc.m.ffdrv):
+                drivers = [a for a in sc.m.comb if arr.get('name') in lhs_names(a)]
+                if drivers:
+                    raise AnalysisBroken('array net %s is driven by a combinational block: not modelled' % full)
             return mem(full, idx)
         ch = [self.expr(c, sc, env) for c in e]
         if t == 'sel':
